@@ -5,6 +5,8 @@ from __future__ import annotations
 import ast
 
 from sa.astutil import (
+    knows,
+    only_knows,
     same_node,
     loop_exits,
     arg_or_kw,
@@ -132,7 +134,7 @@ def r1_extent_check(ctx):
     ok = ok and len(three) == 1 and dotted(kw(three[0], "readout_times")) == "readout_times"
     ctx.check(ok, cf.qual + "#bounds", "target range checked against rows/cols(/readout_times)" if ok else "the target range is not checked against the target's size on both the 2-D and the 3-D path", where=cf, node=chk[0] if chk else cf.node)
     early = [r for r in returns_of(cf)]
-    ok = all(any(pol and norm(t) == f"not {cf.params[0]}" for t, pol in enclosing_tests(r)) for r in early)
+    ok = all(knows(enclosing_tests(r), f"not {cf.params[0]}") or knows(enclosing_tests(r), f"{cf.params[0]} is None") for r in early)
     ctx.check(ok, cf.qual + "#early-return", "only an absent target range skips the checks" if ok else "checks are skipped for another reason", where=cf, node=early[0] if early else cf.node)
 
 
